@@ -65,6 +65,18 @@ def PP.recv (p : PP) : String := s!"{p.id}:{p.len}:{p.digest}"
 
 def zeros32 : String := String.ofList (List.replicate 32 '0')
 
+/-- which of the bot's two queues bounds which direction (bot/client.go `warpConn`): what the bot has queued to SEND
+    waits in `JoinOptions.QueueWrite`, what it has RECEIVED and not yet handled waits in `JoinOptions.QueueRead`.
+    Capacity of a queue kind; `none` = unbounded (not given / LinkedQueue). -/
+def queueCap (kind : String) : Option Nat :=
+  if kind == "chan16" then some 16 else if kind == "chan4096" then some 4096 else none
+
+/-- a burst of `n` packets plus the end marker fits the queue of its own direction -/
+def burstFits (kind : String) (n : Nat) : Bool :=
+  match queueCap kind with
+  | some c => n + 1 ≤ c
+  | none => true
+
 def join (args : List String) (obs : String) : Verdict :=
   let name := getHex args "name"
   let host := getHex args "host"
@@ -133,8 +145,14 @@ def join (args : List String) (obs : String) : Verdict :=
   -- client's protocol number
   let chkWant : Option String :=
     if chk == "nil" then none else want "chk" s!"{hexOfBytes name}:{hexOfBytes ouuid}:{getKV args "cproto"}"
+  -- queue options: delivery of a burst is demanded when it fits the queue of ITS OWN direction, whatever the other is
+  let (qr, qw) := match (getKV args "q").splitOn "/" with
+    | [a, b] => (a, b)
+    | _ => ("", "")
+  let queuesOk := burstFits qw c2s.length && burstFits qr s2c.length
   let spec : Option String :=
     if obs == "panic" || obs == "hang" then some ("join run: " ++ obs) else
+    if !queuesOk then none else
     if chk == "ref" then
       firstSome [want "c" ("disconnect:" ++ hexOfBytes reason), want "s" "nologin", chkWant,
         schedule (o "sc") 1 ((if t ≥ 0 then [3] else []) ++ [0])]
@@ -396,12 +414,42 @@ def bot (args : List String) (obs : String) : Verdict :=
     else none
   { model, spec }
 
+/-! ## gate.listen: (*Server).Listen with overlapping connections
+
+  At message level the sessions are independent systems: each bot's join is a `Gate.run`, each play channel a
+  `Gate.playRun`; a status ping in between is `Gate.initPing`. The expected observation is their juxtaposition. -/
+
+def listen (args : List String) (obs : String) : Verdict :=
+  let t := getInt args "t"
+  let pings := (getInt args "pings").toNat
+  let hasB := getKV args "b" == "1"
+  let sa := (splitList (getKV args "sa") ",").filterMap parsePP
+  let sb := (splitList (getKV args "sb") ",").filterMap parsePP
+  let cfg : Gate.Cfg := { threshold := t, checker := none, ouuid := fun n => n, statusJson := fun _ => [1] }
+  let session (name : String) (ps : List PP) : String × String :=
+    let s := Gate.run cfg 32 (Gate.initJoin (asciiBytes name) Gate.zeroUUID [] 0)
+    if s.client.phase == .joined then
+      let pl := Gate.playRun ({ cthr := s.client.thr, sthr := s.server.thr } : Gate.Play PP) (ps.map .sSend ++ ps.map (fun _ => .cRead))
+      ("joined", joinList (pl.cRecv.map PP.recv))
+    else ("err:login", "-")
+  let pingOk := (List.range pings).filter fun _ =>
+    match (Gate.run cfg 16 (Gate.initPing [] 0 0)).client.phase with
+    | .pinged _ _ => true
+    | _ => false
+  let (aRes, ra) := session "A" sa
+  let (bRes, rb) := if hasB then session "B" sb else ("-", "-")
+  let model := s!"a={aRes} pings={pingOk.length} b={bRes} ra={ra} rb={rb}"
+  -- spec, from the property: every join completes, every ping succeeds, each player receives exactly its own packets
+  let want := s!"a=joined pings={pings} b={if hasB then "joined" else "-"} ra={joinList (sa.map PP.recv)} rb={if hasB then joinList (sb.map PP.recv) else "-"}"
+  { model, spec := if obs == want then none else some s!"overlapping sessions: expected {want}" }
+
 def handle (op : String) (args : List String) (obs : String) : Option Verdict :=
   match op with
   | "gate.join" => some (join args obs)
   | "disp.run" => some (disp args obs)
   | "gate.status" => some (status args obs)
   | "gate.bot" => some (bot args obs)
+  | "gate.listen" => some (listen args obs)
   | _ => none
 
 end Driver.C19
